@@ -648,3 +648,46 @@ func CancelledThenMore(d *fw.Driver, res *fw.Result, seed int64) error {
 	res.Eval(true, []interface{}{"cancelled-then-more"})
 	return nil
 }
+
+// CtxCancelPending: the context given to NewMergeClient is cancelled while an untagged call is pending on a
+// link that has gone silent (the request was written but never executed).  The call must come back with an
+// error — a result without an execution would break "exactly once when the caller gets an answer".
+func CtxCancelPending(res *fw.Result, seed int64) error {
+	e, err := scen.NewEnv(seed+71, 0, jsonrpc.WithServerPingInterval(0))
+	if err != nil {
+		return err
+	}
+	defer e.Close()
+	ctx, cancel := context.WithCancel(context.Background())
+	defer cancel()
+	cl, closer, err := e.Client(ctx, jsonrpc.WithPingInterval(0), jsonrpc.WithTimeout(0))
+	if err != nil {
+		return err
+	}
+	defer scenClose(res, closer, "ctx-cancel-pending")
+	if v, err := cl.Add(1, 2); err != nil || v != 3 {
+		return fmt.Errorf("harness error: first call failed: %v", err)
+	}
+	e.PX.Cut(0, "blackhole")
+	tok := nextToks(5)
+	type out struct {
+		v   int
+		err error
+	}
+	ch := make(chan out, 1)
+	go func() { v, err := cl.Count(context.Background(), tok); ch <- out{v, err} }()
+	time.Sleep(30 * time.Millisecond)
+	cancel() // the application shuts the client down through its context
+	c := map[string]interface{}{"scenario": "ctx-cancel-pending"}
+	select {
+	case o := <-ch:
+		if o.err == nil {
+			res.Add(fw.Finding{Kind: "monitor", Signature: "client context cancelled with a call pending: result without execution", Detail: fmt.Sprintf("the pending call returned (%d, nil) although the server executed it %d times", o.v, e.H.C.Execs(tok)), Case: c})
+		}
+	case <-time.After(3 * time.Second):
+		res.Add(fw.Finding{Kind: "monitor", Signature: "client context cancelled with a call pending: call hangs", Detail: "the pending call did not return within 3s of the client's context being cancelled", Case: c})
+	}
+	res.Count("ctx-cancel-pending")
+	res.Eval(true, []interface{}{"ctx-cancel-pending"})
+	return nil
+}
